@@ -279,6 +279,7 @@ type prop struct {
 	live       bool
 	matchers   [nOpaque]caddytls.ConnectionMatcher
 	e2eCert    tls.Certificate
+	res        resEnv
 	caB64      string
 	caDER      []byte
 	foreignDER []byte
@@ -851,6 +852,8 @@ func (p *prop) Run(line string) core.Outcome {
 		o = p.runPol(f)
 	case len(f) == 5 && f[0] == "enf":
 		o = p.runEnf(f)
+	case len(f) == 3 && f[0] == "res":
+		o = p.runRes(f)
 	case len(f) == 2 && f[0] == "quic":
 		o = p.runQUIC(f)
 	case len(f) == 2 && f[0] == "cf2":
